@@ -48,6 +48,15 @@ def work(item):
     return res.as_dict()
 
 
+def _run_pre(p):
+    """history: circuits that were built, controlled, inverted and evaluated earlier in the same process"""
+    for n0, specs0, k0 in p.get("pre") or []:
+        c0 = CS.circuit_from_spec([tuple(s) for s in specs0], n0)
+        c0.to_unitary()
+        c0.controlled(k0).to_unitary()
+        c0.inverse().to_unitary()
+
+
 def _w_inverse(res, p):
     from orquestra.quantum.circuits import _circuit as CM
 
@@ -56,6 +65,7 @@ def _w_inverse(res, p):
     except AttributeError:
         pass
     n, specs = p["n"], [tuple(s) for s in p["specs"]]
+    _run_pre(p)
     c = CS.circuit_from_spec(specs, n)
     sym = bool(c.free_symbols)
     if sym:
@@ -92,6 +102,7 @@ def _w_controlled(res, p):
     except AttributeError:
         pass
     n, specs, k = p["n"], [tuple(s) for s in p["specs"]], p["k"]
+    _run_pre(p)
     c = CS.circuit_from_spec(specs, n)
     n = c.n_qubits
     if c.free_symbols:
@@ -292,6 +303,20 @@ def instances(tier, seed):
     for n, specs in ctl_fixed:
         for k in range(n + 1):
             items.append(("ctl", {"n": n, "specs": [_l(s) for s in specs], "k": k, "label": f"n={n} k={k} {CS.spec_str(specs)}"}))
+    # look-alikes: wrappers that report the wrapper's name (every exponential is "Exponential", every controlled gate
+    # "Control") next to each other in one circuit, and custom gates that re-use a name from one circuit to the next
+    # (the earlier circuits are a history executed in the same process)
+    alike = [
+        (2, [("Z|exp", (0,)), ("X|exp", (1,)), ("Z|exp", (1,))], []),
+        (2, [("X|c1", (0, 1)), ("Z|c1", (0, 1)), ("H", (0,))], []),
+        (2, [("H", (1,)), ("UB", (0,)), ("X", (1,))], [[2, [["H", [1]], ["UA", [0]], ["X", [1]]], 0]]),
+        (1, [("UC", (0,))], [[1, [["UA", [0]]], 1], [1, [["UB", [0]]], 0]]),
+        (2, [("Y|exp", (1,)), ("RX(th0)", (0,))], [[2, [["X|exp", [1]], ["RX(th0)", [0]]], 1]]),
+    ]
+    for n, specs, pre in alike:
+        for k in ((0, n) if tier == "quick" else range(n + 1)):
+            items.append(("ctl", {"n": n, "specs": [_l(s) for s in specs], "k": k, "pre": pre, "label": f"look-alikes n={n} k={k} {CS.spec_str(specs)} after {len(pre)} earlier circuits"}))
+        items.append(("inv", {"n": n, "specs": [_l(s) for s in specs], "pre": pre, "label": f"look-alikes n={n} {CS.spec_str(specs)} after {len(pre)} earlier circuits"}))
     # every built-in gate (read from the library's table at run time), bare, as a one-operation circuit: control below and
     # above it, inverse
     from .c02 import gate_table
@@ -360,6 +385,7 @@ def replay(data):
         return bool(d > 1e-6 * (1 + np.abs(b).max())), f"max|delta|={d:.3g} at {vals}"
 
     try:
+        _run_pre(inp)
         if clause.startswith("inverse") or clause in ("circuit-plus-inverse", "double-inverse"):
             c = CS.circuit_from_spec([tuple(s) for s in inp["specs"]], inp["n"])
             inv = c.inverse()
